@@ -234,6 +234,17 @@ func genC03Sub(t *rapid.T) c03Sub {
 	if rapid.Bool().Draw(t, "cash") {
 		c.Codec = "cashaddr"
 		c.Prefix = genKnownPrefix(t)
+		if rapid.IntRange(0, 3).Draw(t, "anyprefix") == 0 {
+			// DecodeCashAddress takes any prefix of letters: every letter of the alphabet gets its turn, the ends most often
+			b := make([]byte, rapid.IntRange(1, 12).Draw(t, "plen"))
+			for i := range b {
+				b[i] = byte(rapid.IntRange('a', 'z').Draw(t, "pch"))
+				if rapid.IntRange(0, 3).Draw(t, "pedge") == 0 {
+					b[i] = rapid.SampledFrom([]byte{'a', 'z', 'p', 'q', 'y'}).Draw(t, "pedgech")
+				}
+			}
+			c.Prefix = string(b)
+		}
 		n := rapid.SampledFrom(cashStdSymLens).Draw(t, "symlen")
 		c.Syms = make([]byte, n)
 		for i := range c.Syms {
